@@ -69,7 +69,7 @@ def check_result(case, result, rec, jc):
         t, gax = np.asarray(ds["t"], dtype=float), np.asarray(ds["g"], dtype=float)
         D, Wd = data[label]
         # -- coordinates and layout equal the dataset's own
-        want_dims = ("time", "spectral") if ds.get("layout", "mg") == "mg" else ("spectral", "time")
+        want_dims = ("time", "spectral") if ds.get("layout", "mg").startswith("mg") else ("spectral", "time")
         if tuple(rd.data.dims) != want_dims:
             bad.append(("layout", f"{label}: data dims {rd.data.dims} != {want_dims}"))
         if not (np.array_equal(rd.coords["time"].values, t) and np.array_equal(rd.coords["spectral"].values, gax)):
@@ -269,7 +269,7 @@ def run_shard(spec, rec):
     S.model_class()
     for i in range(spec["n"]):
         pool = POOLS[int(rng.integers(len(POOLS)))]
-        case = c02.fix_groups(S.gen_case(rng, label_pool=pool, layouts=("mg", "gm")))
+        case = c02.fix_groups(S.gen_case(rng, label_pool=pool, layouts=("mg", "gm", "mg_f", "gm_f")))
         jc = S.jsonable_case(case)
         result = run_case(jc, rec)
         nt = False
